@@ -20,7 +20,6 @@ import (
 	"errors"
 	"fmt"
 	"io"
-	"log"
 	"reflect"
 	"sort"
 	"strings"
@@ -643,14 +642,9 @@ func rowLess(ri, rj Row, c SortConfig) bool {
 		return false
 	}
 	cfg, last := c[0], len(c) == 1
-	ci, ok := ri[cfg.Binding]
-	if !ok {
-		log.Fatalf("Could not retrieve binding %q! %v %v", cfg.Binding, ri, rj)
-	}
-	cj, ok := rj[cfg.Binding]
-	if !ok {
-		log.Fatalf("Could not retrieve binding %q! %v %v", cfg.Binding, ri, rj)
-	}
+	// A row that does not carry the binding holds no value for it (it prints as
+	// <NULL>) and compares as equal to anything.
+	ci, cj := ri[cfg.Binding], rj[cfg.Binding]
 	l, _ := CompareCells(ci, cj)
 	if cfg.Desc {
 		l = -l
